@@ -78,7 +78,7 @@ CLAIMS = {
         text=("Machine-checked: C06_none / C06_value / C06_many decide the outcome of `the` by the number of satisfying assignments (0, 1, >= 2) "
               "for every description with all variables selected, any heap and duplicate-free domains, from C02's exactly-once theorem and the "
               "model of The._evaluate_ (consume, fail on the second row, fail if none); C06_same_as_an: the value is the row `an` yields. "
-              "Tie: outcome enum and value of generated descriptions (entity / set_of, 1-2 variables), first evaluation and re-evaluation, "
+              "Tie: outcome enum and value of generated descriptions (entity / set_of, 1-2 variables, with and WITHOUT conditions), first evaluation and re-evaluation, "
               "cache off and on, against the model."),
         design='7/C06', technique='Coq proof (corollary of the counting theorem C02_all_selected) + correspondence on outcomes',
         note=BASE_NOTE + " Re-evaluation consistency rests on the reset-in-finally repair (C04) and the correspondence; `the` nested as an operand is not modelled."),
@@ -120,7 +120,7 @@ CLAIMS = {
               "generated concatenate queries over scalar attributes, collections, collections of collections (one level of nesting in the "
               "value model) and flatten(...) of those, compared with the model (the list value as a sequence)."),
         design='7/C17', technique='Coq proof (direct computation on the P-model, induction over the outer domain) + correspondence',
-        note=BASE_NOTE + " The inner variable of a concatenation is assumed not to be used elsewhere in the query (the code binds it to a list)."),
+        note=BASE_NOTE + " Generated: one or two concatenations over the same parent variable, the parent variable optionally selected as well (a concatenation binds only itself; a defect here was repaired in /repo); conditions on the parent variable outside the concatenations are not generated (the concatenation would then range over the bound parent only)."),
     'C18': dict(
         text=("Machine-checked: C18_rewrite_sat (truth is invariant under every composition of: and/or commutativity and re-association, "
               "comparison mirroring, contains vs in_), C18_invariant and C18_domain_permutation (hence the result set, via C02), C18_tables (fold "
@@ -147,8 +147,9 @@ CLAIMS = {
               "written back in the finally clause); the block model uses that fact. Tie: every quantifier x condition kind (comparison, "
               "@predicate function, Predicate subclass, rule inference, a rule over a variable given by keyword only - expanded by the "
               "library inside a block of its own during evaluation -, a Predicate subclass that builds and evaluates a query inside its "
-              "own symbolic block followed by another class predicate) x dataset evaluated under ambient none / query / rule, and with "
-              "the results of one evaluation drawn partly outside and partly inside a block; the five outcomes must coincide."),
+              "own symbolic block followed by another class predicate) x dataset evaluated under ambient none / query / rule / a query "
+              "block and a rule block opened for ANOTHER query, and with the results of one evaluation drawn partly outside and partly "
+              "inside a block; the seven outcomes must coincide."),
         design='7/C09', technique='Coq proof over translator-extracted facts + differential correspondence across ambient modes',
         note=BASE_NOTE + " The model is the mode seen during evaluation, not the evaluator itself: that predicates/constructors depend on the mode only through in_symbolic_mode() at call time is assumed (read in predicate.py) and validated by the correspondence."),
     'C13': dict(
@@ -200,7 +201,8 @@ CLAIMS = {
               "its expression under that same assignment; objects are passed by identity, constants whatever their truthiness). Tie: "
               "generated rules built in rule mode through infer(entity(H(...), body)); every constructed object must be a NEW instance of "
               "the head class, its fields are compared (heap objects by identity) with the model as a sequence and with the specification "
-              "as a multiset, caching off and on, evaluated twice. 30 % of the heads have a NESTED constructor argument W(w=t) (a variable over the "
+              "as a multiset, caching off and on, evaluated twice. Heads are written with keyword arguments, with positional arguments (to a "
+              "class whose positional parameters are interleaved with inherited and own keyword-only ones) or a mix. 30 % of the heads have a NESTED constructor argument W(w=t) (a variable over the "
               "registered W instances restricted by its keyword, read as one more rule variable plus one more conjunct of the body; rows "
               "compared as multisets), also inside histories in which the rule is first evaluated partly."),
         design='7/C11', technique='Coq proof (instances of the partition/counting invariant for selected expressions + binding lemmas by induction over terms and argument lists) + correspondence on constructed field tuples',
